@@ -1,10 +1,5 @@
 """C19 — DString behaves like the obvious string model (rapidcheck state machine, asan variant)."""
-import json
-import os
-import shutil
-import subprocess
-
-from lib import common, vbuild
+from lib import rcrun
 
 PROP = 'C19'
 RULE = ('rapidcheck state machine over 13 DString operations on 3 live strings; arguments from the boundary set '
@@ -12,115 +7,8 @@ RULE = ('rapidcheck state machine over 13 DString operations on 3 live strings; 
         'oracle = std::string model in unbounded arithmetic checked after every command. A case is non-trivial when '
         'it contains >=1 out-of-range or "-1" argument AND >=1 operation that crossed a capacity step; distinct by '
         'the serialised command list.')
-
-
-def binary():
-    return vbuild.harness('c19_dstring', 'asan', ['c19_dstring.cpp'], libs=['-lrapidcheck'])
-
-
-def prebuild():
-    binary()
-
-
-def _replay_once(path):
-    p = subprocess.run([binary(), 'replay', path], env=common.san_env(), stdout=subprocess.PIPE, stderr=subprocess.PIPE)
-    return p.returncode, p.stdout.decode(errors='replace'), p.stderr.decode(errors='replace')
-
-
-def classify(path):
-    """Run a replay; returns None if it passes, else a signature string."""
-    rc, out, err = _replay_once(path)
-    if rc == 0:
-        return None
-    sig = common.san_signature(err)
-    if sig:
-        return common.sig_str(sig)
-    for line in out.splitlines():
-        if line.startswith('MISMATCH'):
-            msg = line.split(': ', 1)[1] if ': ' in line else line
-            op = line.split()[4].split('[')[0] if len(line.split()) > 4 else '?'
-            return 'model:%s:%s' % (op, msg.split('  [')[0])
-    return 'crash:rc=%d' % rc
-
-
-def replay(path):
-    sig = classify(path)
-    if sig is None:
-        print('replay passes:', path)
-        return 0
-    common.violation(PROP, path, sig)
-    return 1
-
-
-def run(tier):
-    ev = common.Evidence(PROP, tier)
-    ev.rule = RULE
-    ev.assumptions = ['payloads are NUL-free; _c_array byte counts never exceed the payload; replace() pattern is non-empty',
-                      'an occurrence straddling the end of the replace range may or may not be replaced (both accepted, counted)',
-                      'rapidcheck and libstdc++ are trusted; the model is the std::string code in harness/c19_dstring.cpp']
-    known = common.Known()
-    b = binary()
-    work = common.scratch_dir('c19')
-    nsh = common.NCPU
-    per = int((4000 if tier == 'quick' else 200000) * common.budget_scale())
-    procs = []
-    for i in range(nsh):
-        od = os.path.join(work, 's%d' % i)
-        os.makedirs(od)
-        env = common.san_env({'RC_PARAMS': 'seed=%d max_success=%d max_size=%d' % (common.seed() * 1000 + i + 1, per, 60)})
-        procs.append((od, subprocess.Popen([b, 'run', od], env=env, stdout=open(os.path.join(od, 'out.txt'), 'wb'),
-                                           stderr=open(os.path.join(od, 'err.txt'), 'wb'))))
-    failures = []
-    # committed regression replays first
-    sd = os.path.join(common.SEEDS, PROP)
-    regress = sorted(os.listdir(sd)) if os.path.isdir(sd) else []
-    for f in regress:
-        s = classify(os.path.join(sd, f))
-        ev.add_class('regression_replays')
-        if s:
-            failures.append((os.path.join(sd, f), s))
-    for od, p in procs:
-        rc = p.wait()
-        st = os.path.join(od, 'stats.json')
-        if os.path.exists(st):
-            d = json.load(open(st))
-            ev.evaluations += d['cases']
-            ev.add_class('commands_executed', d['commands'])
-            ev.add_class('replace_straddling_range_end', d['straddles'])
-            ev.merge_classes(d['classes'])
-            ev.nontrivial.update(d['nontrivial'])
-            for s in d['samples']:
-                ev.sample(s)
-        if rc != 0:
-            src = os.path.join(od, 'failure.txt')
-            if not os.path.exists(src):
-                src = os.path.join(od, 'journal.txt')
-            name = 'c19-%s-%s.txt' % (common.sha(open(src, 'rb').read()), os.path.basename(od))
-            rp = common.save_replay(PROP, name, open(src, 'rb').read())
-            sig = None
-            for _ in range(3):
-                sig = classify(rp)
-                if sig is None:
-                    break
-            if sig is None:
-                ev.inconclusive.append('failure did not reproduce from %s' % rp)
-            else:
-                failures.append((rp, sig))
-    rcode = 0
-    seen = set()
-    for rp, sig in failures:
-        k = known.match(PROP, sig)
-        if k:
-            if sig not in seen:
-                common.known_line(PROP, sig, k['what'])
-                ev.known_hit.append(sig)
-        else:
-            if sig not in seen:
-                common.violation(PROP, rp, sig)
-            ev.violations += 1
-            rcode = 1
-        seen.add(sig)
-    ev.write()
-    shutil.rmtree(work, ignore_errors=True)
-    print('%s %s: %d cases, %d distinct non-trivial, %d violations' % (PROP, tier, ev.evaluations, len(ev.nontrivial), ev.violations))
-    return rcode
+ASSUMPTIONS = ['payloads are NUL-free; _c_array byte counts never exceed the payload; replace() pattern is non-empty',
+               'an occurrence straddling the end of the replace range may or may not be replaced (both accepted, counted)',
+               'rapidcheck and libstdc++ are trusted; the model is the std::string code in harness/c19_dstring.cpp']
+_rc = rcrun.RC(PROP, 'c19_dstring', 'c19_dstring.cpp', RULE, ASSUMPTIONS, quick=4000, thorough=200000, max_size=60)
+prebuild, replay, run = _rc.prebuild, _rc.replay, _rc.run
